@@ -110,7 +110,7 @@ SPEC = {
         "q": ["", "v=" + VID, "v=abc", "v=" + VID + "xyz", "list=PL1", "v=" + VID + "&list=PL1", "next=%2Fwatch%3Fv%3Dabc", "v="],
         "qshort": ["", "v=" + VID, "list=PL1"],
         "drop3": ["v", "video", VID + "xyz", "feed"],
-        "frags": ["", "#x", "#/watch?v=" + VID, "#%2Fwatch%3Fv%3D" + VID, "#/watch?v=abc"],
+        "frags": ["", "#x", "#/watch?v=" + VID, "#%2Fwatch%3Fv%3D" + VID, "#/watch?v=abc", "#/watch?v=ObJTChxhhvY"],  # (the last one routes to ANOTHER video than the path / query)
     },
     "twitter": {
         "hosts": ["https://twitter.com", "x.com", "http://www.twitter.com", "https://mobile.x.com"],
@@ -668,7 +668,8 @@ class PlatformChecks(Checker):
                 self.viol("C19:result-type:normalize_youtube_url:not-str", wit, {"got": repr(n1)})
             elif not valid:
                 ctx.count("roundtrip-of-record-failing-its-validator-not-judged-twice")
-            elif rec is None or safe_values(rec):
+            elif rec is None or safe_values(rec) or any(isinstance(fv, str) and "#" in fv for _, fv in fields_of(rec)):
+                # (a field holding a '#' was read across the fragment delimiter: such a record is judged like any other)
                 ok2, n2 = self.call(P, "normalize_youtube_url", yt.normalize_youtube_url, n1, True if rec is not None else truth)
                 ctx.count("idempotence-checked:youtube")
                 if ok2 and n2 != n1:
@@ -826,6 +827,7 @@ DIRECTED = [
     C("youtube", "https://youtu.be", [VID]), C("youtube", "https://youtu.be", [VID + "%5D"]), C("youtube", "https://youtu.be", ["short"]), C("youtube", "https://youtu.be", ["", VID]),
     C("youtube", YTH, ["watch"], False, "v=" + VID + "&list="), C("youtube", YTH, ["watch"], False, "list=&v=" + VID + "&list=PL1"), C("youtube", YTH, ["watch"], False, "v=" + VID + "&list=&t=1"),
     C("youtube", "http://:80", ["watch"], False, "v=" + VID), C("youtube", "http://@", ["x"], False), C("youtube", YTH, ["embed", "abc"], False), C("youtube", YTH, ["embed"], False), C("youtube", YTH, ["v", "x" * 30], False),
+    C("youtube", "http://youtu.be", [VID], False, "list=PL1", "#/watch?v=ObJTChxhhvY"), C("youtube", YTH, ["watch"], False, "v=" + VID + "&list=PL1", "#/watch?v=ObJTChxhhvY"), C("youtube", YTH, ["embed", VID], False, "list=PL1", "#top"),
     C("youtube", YTH, ["watch"], False, "v=" + VID), C("youtube", YTH, ["watch"], False, "v=" + VID + "&list=PL1"), C("youtube", YTH, ["watch"], False, "list=PL1&v=" + VID), C("youtube", YTH, ["watch"]),
     C("youtube", YTH, ["watch"], True, "v=" + VID), C("youtube", YTH, ["watch"], False, "v=" + VID + "xyz"), C("youtube", YTH, ["embed"], True), C("youtube", YTH, ["embed", VID], False, "autoplay=1"),
     C("youtube", YTH, ["v"], True), C("youtube", YTH, ["v", VID]), C("youtube", YTH, ["video"], True), C("youtube", YTH, ["video", VID]), C("youtube", YTH, ["shorts"], True), C("youtube", YTH, ["shorts", VID]),
